@@ -132,6 +132,46 @@ def run_isolated(plugins):
     return dict(inputs={"plugins": list(plugins)}, failed=["harness"], outcome={"stderr": r.stderr[-500:]}, pre_ok=True)
 
 
+def unresolved_annotations(src):
+    """names used in the annotations of the client's methods (also inside quoted annotations) that nothing in the module
+    binds: no import at any depth (top level, `if TYPE_CHECKING:`, inside the method), no definition, no builtin"""
+    import ast
+    import builtins
+    tree = ast.parse(src)
+    bound = set(dir(builtins))
+    for n in ast.walk(tree):
+        if isinstance(n, (ast.Import, ast.ImportFrom)):
+            bound |= {(a.asname or a.name).split(".")[0] for a in n.names}
+        elif isinstance(n, (ast.ClassDef, ast.FunctionDef, ast.AsyncFunctionDef)):
+            bound.add(n.name)
+        elif isinstance(n, ast.Assign):
+            bound |= {t.id for t in n.targets if isinstance(t, ast.Name)}
+    missing = set()
+
+    def names_of(ann):
+        if ann is None:
+            return
+        if isinstance(ann, ast.Constant) and isinstance(ann.value, str):
+            try:
+                ann = ast.parse(ann.value, mode="eval").body
+            except SyntaxError:
+                missing.add(f"<unparsable annotation {ann.value!r}>")
+                return
+            names_of(ann)
+            return
+        for x in ast.walk(ann):
+            if isinstance(x, ast.Name) and x.id not in bound:
+                missing.add(x.id)
+            elif isinstance(x, ast.Constant) and isinstance(x.value, str) and x is not ann:
+                names_of(x)
+    for cls in [n for n in tree.body if isinstance(n, ast.ClassDef)]:
+        for fn in [n for n in cls.body if isinstance(n, (ast.FunctionDef, ast.AsyncFunctionDef))]:
+            names_of(fn.returns)
+            for a in fn.args.args + fn.args.kwonlyargs:
+                names_of(a.annotation)
+    return sorted(missing)
+
+
 def check_combo_inproc(plugins):
     return check_combo(tuple(plugins))
 
@@ -158,6 +198,10 @@ def check_combo(plugins, baseline=None):
             if res != expected:
                 rep["failed"].append(f"result[{op}]")
                 rep["outcome"][op] = {"result": res, "expected": expected}
+        unresolved = unresolved_annotations(g.read("client.py"))
+        if unresolved:
+            rep["failed"].append("client-annotations-resolve")
+            rep["outcome"]["unresolved"] = unresolved
         if "ExtractOperations" in plugins and "operations.py" not in g.files:
             rep["failed"].append("operations-module-written")
         if "NoReimports" in plugins and g.read("__init__.py").strip():
